@@ -290,10 +290,18 @@ def check_C04(c):
     c.model("ClientConn", "ClientConn.abl_HijackOnBroadcast.cfg", must="fail", expect="Deadlock", note="broadcastErr does not hijack the channel: a later send error blocks on the full channel")
     c.model("ClientConn", "ClientConn.abl_SendErrDelivered.cfg", must="fail", expect="Deadlock", note="send error not delivered: the caller waits forever")
     c.model("ClientConn", "ClientConn.abl_DeleteOnGet.cfg", must="fail", expect="Inv_C04_NotifiedOnce", note="getChannel does not delete: notified twice")
-    rc, out, path = c.run("TestVerif_ConnLoss", timeout=3000)
-    count_traces(c, path, ["fault", "at", "err", "variant"])
+    path, crashed = run_crashy(c, "TestVerif_ConnLoss", timeout=3000)
+    for cr in crashed:
+        h = cr["head"]
+        site = re.findall(r"github.com/pkg/sftp\.(\S+?)\(", cr["stack"])
+        c.violation("panic,site=%s" % (site[0] if site else "?"),
+                    "the process crashed (panic in a goroutine of the package) in connection-loss case %s: fault=%s at=%s err=%s: %s" % (h.get("case"), h.get("fault"), h.get("at"), h.get("err"), cr["panic"]),
+                    {"case": h, "panic": cr["panic"], "stack": cr["stack"]})
+    c.cov["harness"]["crashed_cases"] = len(crashed)
+    count_traces(c, path, ["fault", "at", "err", "variant", "mini"])
     c.cov["rule"] = ("a case is one (client option variant, fault) where the fault is a cut of the server->client stream at a byte offset (EOF or error) or the failure of the "
-                     "j-th client->server write; 5 goroutines run single calls and multi-chunk transfers, two of them start calls around/after the failure")
+                     "j-th client->server write; 5 goroutines run single calls and multi-chunk transfers, two of them start calls around/after the failure; "
+                     "'mini' cases: one goroutine with a fixed sequence of single-packet operations, cut at EVERY byte of its (deterministic) reply stream, with EOF and with an error")
     found = c.validate("TraceClient", "TraceClient.C04.cfg", path)
     report_trace_violations(c, found, "TraceClient")
     c.assumptions += ["bounded waiting (20 s per session) stands for 'hangs'; the parked-goroutine stack is stored in the replay file",
